@@ -222,6 +222,7 @@ func (e *env) runText(c *Case, grammar bool) ([]F, map[string]interface{}) {
 			return fs, obs
 		}
 		codes := map[int]bool{}
+		texts := map[int]bool{}
 		name, kind := "", ""
 		var flat []string
 		flatOK := ""
@@ -231,7 +232,14 @@ func (e *env) runText(c *Case, grammar bool) ([]F, map[string]interface{}) {
 			case pan != "":
 				codes[gqlty.CodePanic] = true
 			case err != nil:
-				codes[gqlty.ParseErrCode(err.Error())] = true
+				// the verdict is compared, not the wording: client error (graphql.ClientError) or any other error;
+				// the class of the message text only goes into the histogram
+				if _, ok := err.(graphql.ClientError); ok {
+					codes[gqlty.VerdictClientError] = true
+				} else {
+					codes[gqlty.VerdictOtherError] = true
+				}
+				texts[gqlty.ParseErrCode(err.Error())] = true
 			default:
 				codes[gqlty.CodeOK] = true
 				name, kind = qq.Name, qq.Kind
@@ -247,6 +255,12 @@ func (e *env) runText(c *Case, grammar bool) ([]F, map[string]interface{}) {
 		sort.Ints(cl)
 		obs["coq"] = term
 		obs["codes"] = cl
+		var tl []int
+		for k := range texts {
+			tl = append(tl, k)
+		}
+		sort.Ints(tl)
+		obs["text_classes"] = tl
 		obs["name"], obs["kind"] = name, kind
 		obs["flat"], obs["flat_ok"] = flat, flatOK
 		obs["size"] = gqlty.AstSize(doc)
